@@ -188,7 +188,7 @@ Print Assumptions C13_dedup_by.
    remove / split_off and the range resolution and checks of Vec::drain are extracted from vec.rs on
    every run (tools/rs2v.py -> LeafActual.v) and equal what VecModel.insert / remove / split_off /
    drain_range compute ---- *)
-From BV Require Import RustSem LeafActual LeafActualOk.
+From BV Require Import RustSem LeafActual LeafActualOk VecSourceOk.
 From Coq Require Import String.
 Open Scope string_scope.
 Open Scope N_scope.
@@ -226,14 +226,16 @@ Theorem C13_source_split_off : forall len cap base at_, at_ <= len -> base + at_
   call_fn src_fns en "vec_split_off_copy_src" [VN at_] = RustSem.Ret (VN (base + at_)).
 Proof. exact src_vec_split_off_ok. Qed.
 
-(* drain (Vec and String): a bound of usize::MAX that would need +1 panics instead of wrapping (F10) *)
+(* drain: a bound of usize::MAX that would need +1 panics instead of wrapping (F10) *)
 Theorem C13_source_drain_bounds : forall len cap base s e,
   let en := vself len cap base in
   call_fn src_fns en "vec_drain_start" [vrange s e] = opt_or_panic (range_start s) /\
-  call_fn src_fns en "vec_drain_end" [vrange s e] = opt_or_panic (range_end e len) /\
-  call_fn src_fns en "string_drain_start" [vrange s e] = opt_or_panic (range_start s) /\
-  call_fn src_fns en "string_drain_end" [vrange s e] = opt_or_panic (range_end e len).
+  call_fn src_fns en "vec_drain_end" [vrange s e] = opt_or_panic (range_end e len).
 Proof. exact src_drain_bounds_ok. Qed.
+
+(* the statements around those expressions in insert / remove are the ones the model's steps stand for *)
+Theorem C13_source_frames : forallb snd src_frames_vec = true /\ List.length src_frames_vec = 2%nat.
+Proof. split; [exact src_frames_vec_ok | reflexivity]. Qed.
 
 Theorem C13_source_drain_checks : forall len cap base s e a b,
   range_start s = Some a -> range_end e len = Some b ->
@@ -248,6 +250,7 @@ Print Assumptions C13_source_index_checks.
 Print Assumptions C13_source_remove.
 Print Assumptions C13_source_split_off.
 Print Assumptions C13_source_drain_bounds.
+Print Assumptions C13_source_frames.
 Print Assumptions C13_source_drain_checks.
 
 (* ---- into_iter and clone (VecIter.v) ---- *)
